@@ -20,6 +20,11 @@ def archetypes():
     """One archetype per channel through which a scan edits the shared rating state."""
     ca_small = P.rsa_blob(1024, seed=9)
     a = {}
+    # twins: the same banner and the same KEXINIT lists, different MEASURED attributes (RSA host key of 2048 / 4096 bits) - anything keyed by banner and lists
+    # alone (a cache of recommendations, of ratings) hands one twin the other's result
+    for bits in (2048, 4096):
+        a['twin-rsa-%d' % bits] = dict(banner=b'SSH-2.0-OpenSSH_8.9', kex=['curve25519-sha256', 'kex-strict-s-v00@openssh.com'], key=['rsa-sha2-512', 'ssh-ed25519'], enc=['aes256-ctr'], mac=['hmac-sha2-512-etm@openssh.com'],
+                                       hostkeys={b'rsa-sha2-512': P.rsa_blob(bits), b'ssh-ed25519': ED})
     a['clean'] = dict(banner=b'SSH-2.0-OpenSSH_9.6', kex=['sntrup761x25519-sha512@openssh.com', 'kex-strict-s-v00@openssh.com'], key=['ssh-ed25519'], enc=['aes256-gcm@openssh.com'], mac=['hmac-sha2-512-etm@openssh.com'], hostkeys={b'ssh-ed25519': ED})
     a['terrapin-enc'] = dict(banner=b'SSH-2.0-OpenSSH_9.0', kex=['curve25519-sha256'], key=['ssh-ed25519'], enc=['chacha20-poly1305@openssh.com', 'aes256-ctr'], mac=['hmac-sha2-256'], hostkeys={b'ssh-ed25519': ED})
     a['terrapin-mac'] = dict(banner=b'SSH-2.0-OpenSSH_8.0', kex=['curve25519-sha256'], key=['ssh-ed25519'], enc=['aes256-cbc', 'aes256-ctr'], mac=['hmac-sha2-256-etm@openssh.com'], hostkeys={b'ssh-ed25519': ED})
@@ -122,7 +127,7 @@ def run(ctx):
     combos = list(itertools.permutations(names, 2))
     if q:
         combos = rng.sample(combos, 14)
-        combos += [c for c in (('ssh1-retry-broken', 'clean'), ('small-rsa', 'ssh1-retry-broken', 'terrapin-mac'), ('small-gex', 'gex-refused'), ('openssh-2048', 'gex-refused'), ('small-rsa', 'rsa-unprobed'), ('small-ca', 'rsa-unprobed'), ('terrapin-enc', 'clean')) if c not in combos]
+        combos += [c for c in (('ssh1-retry-broken', 'clean'), ('small-rsa', 'ssh1-retry-broken', 'terrapin-mac'), ('small-gex', 'gex-refused'), ('openssh-2048', 'gex-refused'), ('small-rsa', 'rsa-unprobed'), ('small-ca', 'rsa-unprobed'), ('terrapin-enc', 'clean'), ('twin-rsa-2048', 'twin-rsa-4096'), ('twin-rsa-4096', 'twin-rsa-2048')) if c not in combos]
     else:
         combos = combos + rng.sample(list(itertools.permutations(names, 3)), 120)
     tmp = tempfile.mkdtemp(prefix='verif_c07_')
